@@ -13,6 +13,7 @@ mod c16;
 mod c18;
 mod corpus;
 mod fmt;
+mod runner;
 mod c19;
 mod util;
 
@@ -41,6 +42,24 @@ fn main() {
             return;
         }
         "fmt" => fmt::run(&mut out, tier, seed),
+        "rundir" => {
+            let mut names: Vec<String> = std::fs::read_dir(&args[5]).expect("dir").filter_map(|e| e.ok()).map(|e| e.path().to_string_lossy().to_string()).filter(|p| p.ends_with(".incn")).collect();
+            names.sort();
+            let cases: Vec<runner::Case> = names.iter().map(|n| runner::Case { name: n.clone(), source: std::fs::read_to_string(n).expect("read") }).collect();
+            let o = runner::run_batch("/verif/.build/scratch/runone", "/verif/.build/scratch/runone-target", &cases);
+            for (c, o) in cases.iter().zip(o.iter()) {
+                println!("{}\t{}", c.name.rsplit('/').next().unwrap_or(""), runner::show(o));
+            }
+        }
+        "buildrun" => {
+            let o = runner::build_project(&args[5], "/verif/.build/scratch/buildrun-out", "/verif/.build/scratch/buildrun-target");
+            println!("{}", runner::show(&o));
+        }
+        "runone" => {
+            let src = std::fs::read_to_string(&args[5]).expect("read");
+            let o = runner::run_batch("/verif/.build/scratch/runone", "/verif/.build/scratch/runone-target", &[runner::Case { name: "x".into(), source: src }]);
+            println!("{}", runner::show(&o[0]));
+        }
         "fmtone" => {
             let src = std::fs::read_to_string(&args[5]).expect("read");
             println!("{}", fmt::verdict(&src).unwrap_or_else(|| "does-not-parse".to_string()));
